@@ -274,3 +274,42 @@ claim("C15",
            "stability is decided by a direct oracle. Five defects found by this check were repaired in /repo (F41-F43, F45, F46).",
       technique="Lean 4 proof over executable model + differential correspondence with the Python implementation",
       design_ref="DESIGN.md §5 C15")
+
+claim("C06",
+      text="In the Lean model of is_isomorphic/_vf2 (repaired code: antiparallel edge labels merged, self-loop labels compared, "
+           "properties of CARG-bearing predications compared), every complete mapping the matcher returns, and hence every True "
+           "of is_isomorphic, is proved to be a bijection between the nodes of the two encoding graphs that preserves node labels "
+           "(normalised predicate, constant, properties when requested) and all role, scope and constraint edges in both "
+           "directions, self-loops included, absent edges mapped to absent edges — so no changed predicate, argument, constant, "
+           "constraint or property is accepted. For bag comparison the two counting identities are proved for any comparison "
+           "predicate, and 'entirely shared' for a shuffled list of equivalent copies under any equivalence relation. "
+           "Completeness (no false negatives, hence reflexivity, symmetry, renaming/reordering invariance) is NOT proved: only "
+           "exhaustiveness of the search over feasible candidates (completeness_partial); those clauses are decided on the real "
+           "code by an exhaustive bijection search (≤7 predications), invariance checks (≤40 predications) and a "
+           "colour-refinement certificate of non-isomorphism.",
+      note="The soundness theorem assumes edge labels that do not start with '--' nor contain ' --' (the marker _vf2_inv_map uses); "
+           "the driver checks this on every case and a decide-checked counter-example shows it is needed. _vf2's iterative stack "
+           "machine is modelled by the recursion it implements; both are tied to the code by comparing graphs, augmented graphs "
+           "and the returned mapping (candidate and backtracking order) on every generated pair. Input space: non-quantifier "
+           "predications have distinct intrinsic variables (at most one without ARG0), no parallel constraints, ASCII names. "
+           "Real-code calls run under a time limit (a matcher that loops is reported as a violation).",
+      technique="Lean 4 proof over executable model (search invariant) + differential correspondence + exhaustive oracle",
+      design_ref="DESIGN.md §5 C06")
+
+claim("C19",
+      text="Proved in Lean (15 theorems), for a state-machine model of delphin/ace.py (interact/send/_result_lines/receive/_open/"
+           "close for the parser, transferer and generator with both protocols; repaired code) talking to a scripted child with "
+           "an arbitrary exit schedule and arbitrary race-oracle stream: one response per input in order, each recording its "
+           "input, built only from lines the processor wrote for that input; no hang and no exception; unserved or unanswered "
+           "inputs give empty results; after an observed end-of-stream later sent inputs run under a strictly larger run id (new "
+           "child, new run record); refused inputs (blank parser input, text without a bracketed MRS) are reported as skipped and "
+           "change nothing; close() ends the last run record and returns the child's exit status. Termini are pinned to a table "
+           "generated from the live module.",
+      note="The theorems assume the processor answers completely while alive and writes nothing after a terminator (a decide-checked "
+           "counter-example shows this is needed). Pipes, buffering, reaping and time are not modelled: each observation of a "
+           "dying child consumes one oracle bit; the harness forces three exit-visibility schedules on the real code with a "
+           "scripted stand-in (harness/standins/fakeace.py) so that model traces are replayable, and checks free races with the "
+           "direct oracle only, every interaction under a hard timeout. The 'unmodelled' outcome marks S-expression shapes "
+           "outside the model. Five defects found here were repaired in /repo (F18 F19 F47 F48 F49).",
+      technique="Lean 4 proof over a state-machine model + scripted stand-in processor + differential correspondence",
+      design_ref="DESIGN.md §5 C19")
